@@ -12,6 +12,7 @@ import (
 	"encoding/hex"
 	"encoding/json"
 	"fmt"
+	"github.com/relex/slog-agent/output/datadog"
 	"github.com/relex/slog-agent/output/fluentdforward"
 	"os"
 	"os/exec"
@@ -45,15 +46,34 @@ type Fault struct {
 	Pos    int    `json:"pos"`    // queue position of the affected chunk among the spilled ones (0-based)
 	Size   int    `json:"size"`   // size of the affected chunk
 	NSpill int    `json:"nspill"` // how many chunks are spilled in total
+	Out    string `json:"out,omitempty"` // "" = the Forward output's chunk names and matcher (.ff), "dd" = the Datadog output's (.dd)
 }
 
+// sfx is the chunk-name suffix of the output type the pair runs under.
+func (f Fault) sfx() string {
+	if f.Out == "dd" {
+		return ".dd"
+	}
+	return ".ff"
+}
+
+// matcher is the product's own test for "this file name is a chunk of that output" (not a copy of it: a change to the matcher
+// is a change to what recovery picks up; seeded c04-s3 for the Forward output, c04-s7 for the Datadog output)
+func (f Fault) matcher() func(string) bool {
+	if f.Out == "dd" {
+		return (&datadog.Config{}).MatchChunkID
+	}
+	return (&fluentdforward.Config{}).MatchChunkID
+}
+
+func (f Fault) chunkID(i int) string { return fmt.Sprintf("%019d-%08d%s", 1700000000000000000+int64(i), 0, f.sfx()) }
+
 func (f Fault) id() string {
-	return fmt.Sprintf("%s/k%d/%s#%d/%s%s/pos%d/size%d", f.Kind, f.K, f.Point, f.Hit, f.Errno, f.Plant, f.Pos, f.Size)
+	return fmt.Sprintf("%s/k%d/%s#%d/%s%s/pos%d/size%d%s", f.Kind, f.K, f.Point, f.Hit, f.Errno, f.Plant, f.Pos, f.Size, f.Out)
 }
 
 const warm = 3 // chunks that stay in memory (window 4: spilling starts when 2 are queued for output)
 
-func chunkID(i int) string { return fmt.Sprintf("%019d-%08d.ff", 1700000000000000000+int64(i), 0) }
 
 func payload(id string, size int) []byte {
 	b := make([]byte, size)
@@ -75,9 +95,6 @@ func sizeOf(f Fault, i int) int {
 	return 40 + i
 }
 
-// matchID is the product's own test for "this file name is a chunk of the Forward output" (not a copy of it: a change to the
-// matcher is a change to what recovery picks up)
-var matchID = (&fluentdforward.Config{}).MatchChunkID
 
 func setDefs() {
 	defs.BufferMaxNumChunksInMemory = 4
@@ -156,7 +173,7 @@ func victim(c *vkit.Ctx) {
 	}
 	mf := promreg.NewMetricFactory("c04_", nil, nil)
 	cfg := hybridbuffer.Config{RootPath: dir, MaxBufSize: datasize.ByteSize(1 << 40)}
-	buf := cfg.NewBufferer(logger.Root(), "", matchID, mf, false)
+	buf := cfg.NewBufferer(logger.Root(), "", f.matcher(), mf, false)
 	buf.Start()
 	args := buf.RegisterNewConsumer()
 	go func() { // a stalled consumer: takes nothing, leaves when the input is closed
@@ -166,7 +183,7 @@ func victim(c *vkit.Ctx) {
 	n := 0
 	accept := func() {
 		n++
-		id := chunkID(n)
+		id := f.chunkID(n)
 		buf.Accept(base.LogChunk{ID: id, Data: payload(id, sizeOf(f, n))})
 		rep.Accepted = append(rep.Accepted, id)
 		save()
@@ -221,6 +238,8 @@ func digest(b []byte) string {
 }
 
 func recovery(c *vkit.Ctx) {
+	var f Fault
+	_ = json.Unmarshal([]byte(c.Arg("fault")), &f)
 	dir := c.Arg("dir")
 	reportPath := c.Arg("report")
 	setDefs()
@@ -235,7 +254,7 @@ func recovery(c *vkit.Ctx) {
 	}
 	mf := promreg.NewMetricFactory("c04_", nil, nil)
 	cfg := hybridbuffer.Config{RootPath: dir, MaxBufSize: datasize.ByteSize(1 << 40)}
-	buf := cfg.NewBufferer(logger.Root(), "", matchID, mf, false)
+	buf := cfg.NewBufferer(logger.Root(), "", f.matcher(), mf, false)
 	buf.Start()
 	args := buf.RegisterNewConsumer()
 	fin := make(chan struct{})
@@ -308,7 +327,7 @@ func plant(dir string, f Fault, total int) (planted string, intactDisplaced bool
 	// the planted file takes queue position f.Pos among the spilled chunk files: it gets an id that sorts there
 	// (ids of spilled chunks are warm+1 ... warm+NSpill; use a fractional sequence number)
 	base := 1700000000000000000 + int64(warm+1+f.Pos)
-	name := fmt.Sprintf("%019d-%08d.ff", base-1, 5) // sorts right before spilled chunk f.Pos
+	name := fmt.Sprintf("%019d-%08d%s", base-1, 5, f.sfx()) // sorts right before spilled chunk f.Pos
 	full := payload(name, 64)
 	switch f.Plant {
 	case "zero":
@@ -318,7 +337,7 @@ func plant(dir string, f Fault, total int) (planted string, intactDisplaced bool
 	case "garbage":
 		_ = os.WriteFile(filepath.Join(dir, name), []byte("\x00\xff not a chunk \x93"), 0o644)
 	case "unmatched":
-		name = strings.TrimSuffix(name, ".ff") + ".tmp"
+		name = strings.TrimSuffix(name, f.sfx()) + ".tmp"
 		_ = os.WriteFile(filepath.Join(dir, name), full, 0o644)
 	case "directory":
 		_ = os.Mkdir(filepath.Join(dir, name), 0o755)
@@ -351,7 +370,7 @@ func runPair(c *vkit.Ctx, f Fault, idx int) pairResult {
 	spec := vkit.ChildSpec{Mode: "victim", Tag: fmt.Sprintf("v%05d", idx), Timeout: 60 * time.Second,
 		Args: map[string]string{"fault": string(fj), "dir": dir, "report": vrep}}
 	if f.Kind == "strace" {
-		target := filepath.Join(dir, chunkID(warm+1+f.Pos))
+		target := filepath.Join(dir, f.chunkID(warm+1+f.Pos))
 		spec.Wrap = []string{"strace", "-f", "-qq", "-o", "/dev/null", "-e", "trace=write,pwrite64,writev",
 			"-e", "inject=write,pwrite64,writev:error=" + f.Errno + ":when=1+", "-P", target, "-P", target + ".tmp"}
 	}
@@ -377,7 +396,7 @@ func runPair(c *vkit.Ctx, f Fault, idx int) pairResult {
 	total := warm + f.NSpill
 	produced := map[string][]byte{}
 	for i := 1; i <= total; i++ {
-		produced[chunkID(i)] = payload(chunkID(i), sizeOf(f, i))
+		produced[f.chunkID(i)] = payload(f.chunkID(i), sizeOf(f, i))
 	}
 	plantedName := ""
 	if f.Kind == "planted" {
@@ -408,7 +427,7 @@ func runPair(c *vkit.Ctx, f Fault, idx int) pairResult {
 	sort.Strings(intact)
 	// recovery
 	rr := c.RunChild(vkit.ChildSpec{Mode: "recovery", Tag: fmt.Sprintf("r%05d", idx), Timeout: 60 * time.Second,
-		Args: map[string]string{"dir": dir, "report": rrep}})
+		Args: map[string]string{"dir": dir, "report": rrep, "fault": string(fj)}})
 	var rrp recoveryReport
 	if b, err := os.ReadFile(rrep); err == nil {
 		_ = json.Unmarshal(b, &rrp)
@@ -527,6 +546,14 @@ func buildFaults(c *vkit.Ctx) []Fault {
 	for _, pl := range []string{"zero", "truncated", "garbage", "unmatched", "directory", "unreadable"} {
 		for _, pos := range positions {
 			fs = append(fs, Fault{Kind: "planted", Plant: pl, Pos: pos, Size: 50, NSpill: nspill})
+		}
+	}
+	// the same faults under the Datadog output's chunk names and matcher: every kill / planted / shutdown case, and the
+	// short-write cases of one size
+	for _, f := range append([]Fault(nil), fs...) {
+		if f.Kind == "kill" || f.Kind == "shutdown-kill" || f.Kind == "planted" || f.Kind == "none" || ((f.Kind == "fsize+kill" || f.Kind == "fsize") && f.Size == 257) {
+			f.Out = "dd"
+			fs = append(fs, f)
 		}
 	}
 	if !c.Quick() && haveStrace() {
